@@ -208,6 +208,65 @@ def run(chk, pid, tier, work):
     if acc:
         chk.sample({"kind": "recorded move", "event": acc[0]}, limit=5)
     print(f"  recorded moves validated by TraceMoves.tla: {len(events)} ({nacc} accepted) from {len(jobs)} chains", flush=True)
+    selftest(chk, pid, events, work)
+
+
+def selftest(chk, pid, events, work):
+    """Binding self-test: recorded moves that TraceMoves.tla accepts are corrupted in one field each; every corruption must be
+    rejected by a clause that concerns it (a monitor that accepted them would be bound to nothing)."""
+    import copy
+    variants = []
+
+    def add(name, ev, fn, expect):
+        if ev is None:
+            return
+        variants.append(("unchanged " + ev["kind"], copy.deepcopy(ev), None))
+        t = copy.deepcopy(ev)
+        fn(t)
+        variants.append((name, t, expect))
+    acc = lambda kind: next((e for e in events if e["kind"] == kind and e["acc"] and not e.get("minus")), None)  # noqa: E731
+    sh, wf, sw = acc("sh"), acc("wf"), acc("swap")
+    rej = next((e for e in events if e["kind"] in ("sh", "wf") and not e["acc"]), None)
+
+    def inside_end(t):
+        t["new"][-1] = t["new"][-2]
+    add("sh: the accepted path's last frame is inside the region", sh, inside_end, {"M_Member"})
+    add("sh: accepted, but the status says rejected", sh, lambda t: t.__setitem__("status_acc", False), {"M_AccIffStatus"})
+    add("sh: a jump of two lattice sites in the new path", sh, lambda t: t["new"].__setitem__(t["sidx"] - 1, t["new"][t["sidx"] - 1] + 2),
+        {"M_TimeOrdered", "M_ShootingPoint", "M_Member"})
+    add("sh: the shooting frame is not in the old path", sh, lambda t: t.__setitem__("spos", t["spos"] + 1), {"M_ShootingPoint"})
+    add("sh: one frame too long", sh, lambda t: t.__setitem__("maxlength", len(t["new"]) - 1), {"M_Length"})
+    add("sh: a forward frame marked as reversed", sh, lambda t: t["newrev"].__setitem__(len(t["newrev"]) - 1, 1), {"M_VelRev"})
+    add("wf: the new path does not contain the segment", wf, lambda t: t.__setitem__("seg_ok", False), {"M_WfContainsSegment"})
+    add("wf: the old path was changed", wf, lambda t: t.__setitem__("untouched", False), {"M_OldUntouched"})
+    if pid != "C09" or sw is not None:
+        add("swap: the new [0+] path starts one site off", sw, lambda t: t["new1"].__setitem__(0, t["new1"][0] - 1), {"S_Exchange", "M_TimeOrdered", "M_Member"})
+        add("swap: the new [0-] path does not end with the old [0+] path's first frames", sw,
+            lambda t: t["old1"].__setitem__(1, t["old1"][1] + 1), {"S_Exchange"})
+    add("rejected move reported with an accepting status", rej, lambda t: t.__setitem__("path_status_acc", True), {"M_AccIffStatus"})
+    if not variants:
+        return
+    res, bad, ok, tail = validate([v[1] for v in variants], work, f"{pid}_selftest")
+    if not ok:
+        chk.machinery(f"self-test: TraceMoves validation did not consume its batch:\n{tail}")
+        return
+    by = {}
+    for idx, clause in bad:
+        by.setdefault(idx, set()).add(clause)
+    report = []
+    for k, (name, _t, expect) in enumerate(variants):
+        got = sorted(by.get(k, ()))
+        if expect is None:
+            if got:
+                chk.machinery(f"self-test: the uncorrupted recorded move ({name}) is rejected by {got}")
+            continue
+        report.append({"corruption": name, "rejected_by": got})
+        if not got:
+            chk.machinery(f"self-test: TraceMoves.tla accepted a corrupted move ({name})")
+        elif not (set(got) & expect):
+            chk.machinery(f"self-test: '{name}' was rejected, but by none of the clauses that concern it ({got})")
+    chk.cov["binding_selftest"] = report
+    print(f"  binding self-test (TraceMoves): {len(report)} corruptions, all rejected: " + "; ".join(",".join(r["rejected_by"][:2]) for r in report), flush=True)
 
 
 def replay(pid, rp, path):
